@@ -318,7 +318,10 @@ def rewrite_fn(text, contract, report, make_pub=True):
     text = _macro_rewrites(text, report)
     text = _and_then_rewrite(text, report)
     text = _visibility(text)
-    for (a, b) in contract.get("subst", []):
+    for sub in contract.get("subst", []):
+        a, b = sub[0], sub[1]
+        if a not in text and len(sub) > 2 and sub[2]:
+            continue
         if a not in text:
             raise ExtractError(f"R8 substitution anchor not found in {contract['name']}: {a!r}")
         text = text.replace(a, b)
